@@ -86,6 +86,22 @@ pub mod serde_json {
 //@ extract dep:serde_json/src/value/mod.rs :: enum Value
 //@   rule R0
 //@ end
+
+    // serde_json::Error / `serde_json::from_slice::<Value>`: the dependency's PARSER. ASSUMED to be a deterministic
+    // function of the bytes, `json_parse`: Some(value) or None (malformed document). What value it produces for a
+    // document is the dependency's business (DESIGN C15 "assumed").
+    #[verifier::external_body]
+    pub struct Error { _p: u8 }
+    #[verifier::external_body]
+    pub fn from_slice(bytes: &[u8]) -> (r: Result<Value, Error>)
+        ensures match json_parse(bytes@) { Some(v) => r == Ok::<Value, Error>(v), None => r is Err }
+    { unimplemented!() }
+}
+pub uninterp spec fn json_parse(bytes: Seq<u8>) -> Option<serde_json::Value>;
+// `?` on the parser's error: std `impl<E: Error> From<E> for Box<dyn Error>`.
+impl From<serde_json::Error> for VBoxDynError {
+    #[verifier::external_body]
+    fn from(e: serde_json::Error) -> (r: VBoxDynError) { unimplemented!() }
 }
 
 // ---------- the order a serde_json Map (BTreeMap<String, _>) iterates in ----------
